@@ -9,7 +9,8 @@ CFG = {'streams': [{'name': 'C18',
                             'text/panic, 6 pretty display text/panic, 7 citation of path:line:col differs, 8 model not Ok, 9 malformed observation, '
                             '10 display on the other thread differs, 11 a display of a reported error does not cite path:line:col (judged on the '
                             'real text, independently of the model), 99 oracle assumption violated: a visible ERROR/MISSING node but '
-                            'root.has_error() is false)'}],
+                            'root.has_error() is false)',
+              'model_only_codes': [5, 6, 10]}],
  'rule': 'generated Python sources (1-6 top-level statements: assignments, calls, returns, augmented assignments, defs, if/else, for, nested two '
          'deep; non-ASCII identifiers, strings and paths incl. 4-byte characters; 5% CRLF, 15% without final newline; varied spacing) with i mod 7 = '
          '0..6 injected faults (delete/duplicate a token, insert an unbalanced bracket, a stray character or a misplaced keyword, delete a closing '
